@@ -639,20 +639,35 @@ func (p *Pool) Put(x interface{}) {
 	if x == nil {
 		return
 	}
-	poison, pattern := p.put(x)
-	if poison && PoolPoison != nil {
-		// "another goroutine got it immediately and scribbled on it"
+	s, g, pattern := p.putBegin()
+	if s == nil {
+		return
+	}
+	if pattern != 0 && PoolPoison != nil {
+		// "another goroutine got it immediately and scribbled on it": the
+		// garbage is written by the goroutine that gives the object up,
+		// before the release edge, so the writes are ordered like its own.
 		PoolPoison(x, pattern)
 	}
+	p.putEnd(s, g, x)
 }
 
 //go:norace
-func (p *Pool) put(x interface{}) (poison bool, pattern int) {
+func (p *Pool) putBegin() (*Sim, *G, int) {
 	s, g := enter(-1, OpPoolPut)
 	if s == nil {
-		return false, 0
+		return nil, nil, 0
 	}
 	p.fresh(s)
+	if s.cfg.PoolPoison {
+		s.stats.PoolPoisoned++
+		return s, g, 1 + s.tape.Choose(KPool, 3)
+	}
+	return s, g, 0
+}
+
+//go:norace
+func (p *Pool) putEnd(s *Sim, g *G, x interface{}) {
 	raceReleaseMerge(poolRaceAddr(x))
 	for i := 0; i < p.n; i++ {
 		if p.items[i] == x {
@@ -664,11 +679,6 @@ func (p *Pool) put(x interface{}) (poison bool, pattern int) {
 		p.n++
 	}
 	s.event(g, -1, OpPoolPut, CodeDone)
-	if s.cfg.PoolPoison {
-		s.stats.PoolPoisoned++
-		return true, 1 + s.tape.Choose(KPool, 3)
-	}
-	return false, 0
 }
 
 // Get selects an arbitrary item from the pool, removes it and returns it, or
